@@ -329,4 +329,157 @@ theorem table_texts_no_nul :
     '\x00' ∉ invalidProperty.text ∧ '\x00' ∉ notReadable.text ∧ '\x00' ∉ notWritable.text ∧
     '\x00' ∉ invalidInterface.text := by decide
 
+/-! ### when the library serves the Properties interface -/
+
+/-- A class of the chain leaves the Properties interface to `DBusObject`: it declares no interface of that
+name, defines no attribute under a name the resolution would look for (`dbus_Get` / `dbus_Set` /
+`dbus_GetAll`, or the names of DBusObject's three functions, which the decorator table takes BY NAME from
+the instance), and decorates no function for the interface. -/
+def LeavesPropsAlone (c : Class) : Prop :=
+  (∀ i ∈ c.ifaces.getD [], i.name ≠ propsName) ∧
+  (∀ a ∈ c.attrs, a.1 ∉ [attrPrefix ++ getMember, attrPrefix ++ setMember, attrPrefix ++ getAllMember,
+      Gen.DispatchBuiltin.getFunc.1.toList, Gen.DispatchBuiltin.setFunc.1.toList,
+      Gen.DispatchBuiltin.getAllFunc.1.toList]) ∧
+  (∀ a ∈ c.attrs, ∀ i m, a.2.deco = some (i, m) → i ≠ propsName)
+
+theorem find?_append_of_none {α : Type} (l l' : List α) (p : α → Bool) (h : ∀ a ∈ l, p a = false) :
+    (l ++ l').find? p = l'.find? p := by
+  induction l with
+  | nil => rfl
+  | cons a t ih =>
+    simp only [List.cons_append, List.find?_cons, h a List.mem_cons_self]
+    exact ih (fun x hx => h x (List.mem_cons_of_mem _ hx))
+
+theorem findSome?_append_of_none {α β : Type} (l l' : List α) (f : α → Option β) (h : ∀ a ∈ l, f a = none) :
+    (l ++ l').findSome? f = l'.findSome? f := by
+  induction l with
+  | nil => rfl
+  | cons a t ih =>
+    simp only [List.cons_append, List.findSome?_cons, h a List.mem_cons_self]
+    exact ih (fun x hx => h x (List.mem_cons_of_mem _ hx))
+
+theorem find?_none_of_forall {α : Type} (l : List α) (p : α → Bool) (h : ∀ a ∈ l, p a = false) :
+    l.find? p = none := by
+  rw [List.find?_eq_none]
+  intro a ha
+  simp [h a ha]
+
+/-- what `serves` computes on `DBusObject` alone (decide on the generated table) -/
+theorem serves_base :
+    serves { classes := [baseClass] } getMember getId "ss".toList Gen.DispatchBuiltin.getReplySig.toList = true ∧
+    serves { classes := [baseClass] } setMember setId "ssv".toList Gen.DispatchBuiltin.setReplySig.toList = true ∧
+    serves { classes := [baseClass] } getAllMember getAllId "s".toList Gen.DispatchBuiltin.getAllReplySig.toList = true := by
+  decide
+
+/-- the decorator table of `DBusObject` for the three members: its three functions, by name -/
+theorem base_decorated_names :
+    [baseClass].findSome? (fun c => decoratedName c propsName getMember) = some Gen.DispatchBuiltin.getFunc.1.toList ∧
+    [baseClass].findSome? (fun c => decoratedName c propsName setMember) = some Gen.DispatchBuiltin.setFunc.1.toList ∧
+    [baseClass].findSome? (fun c => decoratedName c propsName getAllMember) = some Gen.DispatchBuiltin.getAllFunc.1.toList := by
+  decide
+
+theorem attr_user_append (user : List Class) (name : Str)
+    (h : ∀ c ∈ user, ∀ a ∈ c.attrs, a.1 ≠ name) :
+    attr { classes := user ++ [baseClass] } name = attr { classes := [baseClass] } name := by
+  unfold attr
+  apply findSome?_append_of_none
+  intro c hc
+  rw [find?_none_of_forall]
+  · rfl
+  · intro a ha
+    simp [h c hc a ha]
+
+/-- Prepending classes that leave the Properties interface alone does not change who serves it. -/
+theorem serves_user_append (user : List Class) (h : ∀ c ∈ user, LeavesPropsAlone c)
+    (member : Str) (id : Nat) (sigIn sigOut : Str)
+    (hmem : member = getMember ∨ member = setMember ∨ member = getAllMember)
+    (hbase : serves { classes := [baseClass] } member id sigIn sigOut = true) :
+    serves { classes := user ++ [baseClass] } member id sigIn sigOut = true := by
+  -- the declared interfaces: the user's have other names
+  have hdecl : (declared { classes := user ++ [baseClass] }).find? (fun x => x.name = propsName) =
+      (declared { classes := [baseClass] }).find? (fun x => x.name = propsName) := by
+    unfold declared
+    rw [List.flatMap_append]
+    apply find?_append_of_none
+    intro i hi
+    obtain ⟨c, hc, hic⟩ := List.mem_flatMap.mp hi
+    simpa using (h c hc).1 i hic
+  -- dbus_<member>: no user class has it
+  have hdbus : attr { classes := user ++ [baseClass] } (attrPrefix ++ member) =
+      attr { classes := [baseClass] } (attrPrefix ++ member) := by
+    apply attr_user_append
+    intro c hc a ha heq
+    have := (h c hc).2.1 a ha
+    rcases hmem with hm | hm | hm <;> subst hm <;> simp [heq] at this
+  -- the decorator table: no user class decorates for the interface
+  have hdeco : ∀ iname, iname = propsName →
+      ({ classes := user ++ [baseClass] } : Obj).classes.findSome? (fun c => decoratedName c iname member) =
+      ({ classes := [baseClass] } : Obj).classes.findSome? (fun c => decoratedName c iname member) := by
+    intro iname hin
+    apply findSome?_append_of_none
+    intro c hc
+    have hne : iname ≠ [] := by rw [hin]; exact propsName_not_builtin.1
+    unfold decoratedName lastDecorated
+    rw [if_pos hne, find?_none_of_forall]
+    · rfl
+    · intro a ha
+      have ha' : a ∈ c.attrs := List.mem_reverse.mp ha
+      cases hd : a.2.deco with
+      | none => simp
+      | some im =>
+        obtain ⟨i, m⟩ := im
+        have := (h c hc).2.2 a ha' i m hd
+        have hne' : ¬ (i = iname) := by rw [hin]; exact this
+        simp [hne']
+  unfold serves at hbase ⊢
+  rw [hdecl]
+  cases hf : (declared { classes := [baseClass] }).find? (fun x => x.name = propsName) with
+  | none => simp [hf] at hbase
+  | some i =>
+    simp only [hf] at hbase ⊢
+    have hiname : i.name = propsName := by
+      have := List.find?_some hf
+      simpa using this
+    cases hmm : memberOf i member with
+    | none => simp [hmm] at hbase
+    | some m =>
+      simp only [hmm] at hbase ⊢
+      have hbound : bound { classes := user ++ [baseClass] } i.name member =
+          bound { classes := [baseClass] } i.name member := by
+        unfold bound decorated
+        rw [hdbus, hdeco i.name hiname]
+        -- the name the table answers is one of DBusObject's three functions: no user class has it
+        cases hn : ({ classes := [baseClass] } : Obj).classes.findSome? (fun c => decoratedName c i.name member) with
+        | none => rfl
+        | some name =>
+          have hname : name ∈ [Gen.DispatchBuiltin.getFunc.1.toList, Gen.DispatchBuiltin.setFunc.1.toList,
+              Gen.DispatchBuiltin.getAllFunc.1.toList] := by
+            rw [hiname] at hn
+            obtain ⟨d1, d2, d3⟩ := base_decorated_names
+            rcases hmem with hm | hm | hm <;> subst hm
+            · rw [d1] at hn; injection hn with hn; simp [← hn]
+            · rw [d2] at hn; injection hn with hn; simp [← hn]
+            · rw [d3] at hn; injection hn with hn; simp [← hn]
+          have hattr : attr { classes := user ++ [baseClass] } name = attr { classes := [baseClass] } name := by
+            apply attr_user_append
+            intro c hc a ha heq
+            have := (h c hc).2.1 a ha
+            rw [heq] at this
+            simp only [List.mem_cons, List.not_mem_nil, or_false, not_or] at this hname
+            rcases hname with hh | hh | hh
+            · exact this.2.2.2.1 hh
+            · exact this.2.2.2.2.1 hh
+            · exact this.2.2.2.2.2 hh
+          simp only [hattr]
+      rw [hbound]
+      exact hbase
+
+/-- An object whose classes (below `DBusObject`) leave the Properties interface alone is served by the library. -/
+theorem libraryServes_of_plain (user : List Class) (h : ∀ c ∈ user, LeavesPropsAlone c) :
+    LibraryServes { classes := user ++ [baseClass] } := by
+  obtain ⟨b1, b2, b3⟩ := serves_base
+  exact ⟨serves_user_append user h _ _ _ _ (Or.inl rfl) b1,
+    serves_user_append user h _ _ _ _ (Or.inr (Or.inl rfl)) b2,
+    serves_user_append user h _ _ _ _ (Or.inr (Or.inr rfl)) b3⟩
+
 end Txdbus.Obj.DispatchProofs
